@@ -565,7 +565,7 @@ def run(tier, seed, **opts):
         base = [base_case(3, b"\n", True), base_case(60, b"\r\n", True), base_case(5, b"\n", False)]
         # all kinds of earlier content x all states for the first file(s); one kind per state for the others
         cases = [(c, "full" if i < (1 if quick else 3) else "rotate") for i, c in enumerate(base)]
-        cases += [(G.random_case(rng, max_len=150), "rotate" if quick else "sample") for _ in range(2 if quick else 150)]
+        cases += [(G.random_case(rng, max_len=150), "rotate" if quick else "sample") for _ in range(2 if quick else 80)]
         if not quick:
             cases += [(base_case(w, eol, fin), "rotate") for w, eol, fin in G.layouts()]
         sub = d / "cached"
@@ -573,7 +573,7 @@ def run(tier, seed, **opts):
         n = 0
         for ci, (case, mode) in enumerate(cases):
             earlier = earlier_contents(case)
-            chosen = set(rng.sample(range(len(all_states)), 60)) if mode == "sample" else None
+            chosen = set(rng.sample(range(len(all_states)), 40)) if mode == "sample" else None
             for ki, kind in enumerate(sorted(earlier)):
                 for si, (fai, agp) in enumerate(all_states):
                     if "old" not in (fai and fai[0], agp and agp[0]):
